@@ -14,7 +14,7 @@ def obs (s : St) : String :=
     | .ok (r0, r1, sp) => s!"{r0},{r1},{sp}"
     | _ => "x"
   s!"b={pr2 s.x0.bal s.x1.bal} pend={pr2 s.x0.pend s.x1.pend} all={pr2 s.x0.allTime s.x1.allTime} " ++
-  s!"burn={pr2 s.x0.burned s.x1.burned} col={pr2 s.x0.col s.x1.col} chg={pr2 s.x0.chg s.x1.chg} " ++
+  s!"burn={pr2 s.x0.burned s.x1.burned} col={pr2 s.x0.col s.x1.col} colb={pr2 s.x0.colB s.x1.colB} chg={pr2 s.x0.chg s.x1.chg} " ++
   s!"sent={pr2 s.x0.sent s.x1.sent} brn={pr2 s.x0.brn s.x1.brn} tot={pr2 s.x0.tot s.x1.tot} " ++
   s!"sup={s.sup} lpp={s.lpPair} fees={s.fees.prot},{s.fees.swap},{s.fees.burn} pool={pool} " ++
   " ".intercalate us
@@ -71,6 +71,10 @@ def parseOp (ws : List String) : Option Op :=
     match p.toNat?, s.toNat?, b.toNat? with
     | some p, some s, some b => some (.setFees (who == "o") { prot := p, swap := s, burn := b })
     | _, _, _ => none
+  | ["setcol", who, b] =>
+    match b.toNat? with
+    | some b => if b ≤ 1 then some (.setCollector (who == "o") (b == 1)) else none
+    | none => none
   | ["donate", u, w, a] =>
     match u.toNat?, w.toNat?, a.toNat? with
     | some u, some w, some a => some (.donate u w a)
